@@ -43,6 +43,11 @@ def parseSem (s : String) : Option Attempt :=
     match parseResp r, parseBit a with
     | some r, some a => some { base with recvs := [.more, .complete r], setAsync := a }
     | _, _ => none
+  -- 4th field: the transport still holds bytes behind the message when the reuse decision is taken (residualDataPending)
+  | ["K", r, a, res] =>
+    match parseResp r, parseBit a, parseBit res with
+    | some r, some a, some res => some { base with recvs := [.more, .complete r], setAsync := a, residue := res }
+    | _, _, _ => none
   | _ => none
 
 def parseTok (t : String) : Option Attempt :=
@@ -162,6 +167,7 @@ def step (st : St) : List String → St × String
        s!"ev={showEvs r.evs} res={showRes r.result} att={r.log.length} {showCache r.client}{fo}")
     | _, _, _, _ => (st, "bad-op")
   | ["vclock", _] => (st, "ok")
+  | ["pause", _] => (st, "ok")
   | ["rrc", conn, ver] =>
     match (if conn = "~" then some none else (ofHex conn).map some), ofHex ver with
     | some c, some v => (st, bit (responseRequestsClose c v))
